@@ -1029,6 +1029,228 @@ theorem mutateBaby_closed {reg reg' : Reg W} {P : List (Genome W)} {g g' : Genom
         obtain ⟨⟨rfl, rfl, _⟩, _⟩ := h
         exact ⟨nonstructural_closed o.mopts rs2 rs3 f hns, p⟩
 
+/-! ## population-level closure, part 3: reproduction of a species, induction over the babies -/
+
+/-- the pool during the reproduction of a generation: the genomes of the current generation and the babies so far -/
+def poolOf (P0 : List (Genome W)) (st : ReproState W) : List (Genome W) := P0 ++ st.babies.map (·.genome)
+
+omit [Scalar W] in
+theorem pool_finish {P0 : List (Genome W)} {st st' : ReproState W} {gB : Genome W}
+    (hb : st'.babies.map (·.genome) = st.babies.map (·.genome) ++ [gB])
+    (hP : PoolOk st'.reg (poolOf P0 st)) (hf : Fits st'.reg (poolOf P0 st) gB) : PoolOk st'.reg (poolOf P0 st') := by
+  unfold poolOf at *
+  rw [hb, ← List.append_assoc]
+  exact hP.add hf
+
+theorem pickOtherSpecies_mem (s : Species W) (sorted : List (Species W)) (n : Nat) (cur sp : Species W)
+    (rs rs' : List Nat) (h : pickOtherSpecies s sorted n cur rs = .ok (sp, rs')) : sp = cur ∨ sp ∈ sorted := by
+  induction n generalizing cur rs with
+  | zero => unfold pickOtherSpecies at h; cases h; exact Or.inl rfl
+  | succ k ih =>
+    unfold pickOtherSpecies at h
+    split at h
+    · split at h
+      · cases h
+      · simp only at h
+        split at h
+        · cases h
+        · split at h
+          · cases h
+          · rename_i sp' hsp
+            rcases ih _ _ h with rfl | h'
+            · exact Or.inr (List.mem_of_getElem? hsp)
+            · exact Or.inr h'
+    · cases h; exact Or.inl rfl
+
+/-- **one offspring**: whatever branch `Species.reproduce` takes (super-champion clone with or without mutation, champion
+    clone, mutation only, mating with or without mutation; mate from the same or another species; any of the three
+    crossovers), the pool invariant holds for the pool extended by the baby, under the registry after the baby -/
+theorem reproduceOne_closed (o : EpochOpts W) (generation : Int) (s : Species W) (sorted : List (Species W))
+    (champ : Org W) (count : Int) (st st' : ReproState W) (rs rs' : List Nat) (P0 : List (Genome W))
+    (hchamp : champ.genome ∈ P0) (hs : ∀ x ∈ s.orgs, x.genome ∈ P0)
+    (hsorted : ∀ sp ∈ sorted, ∀ x ∈ sp.orgs, x.genome ∈ P0)
+    (hP : PoolOk st.reg (poolOf P0 st))
+    (h : reproduceOne o generation s sorted champ count st rs = .ok (st', rs')) : PoolOk st'.reg (poolOf P0 st') := by
+  have hin : ∀ g ∈ P0, Fits st.reg (poolOf P0 st) g := fun g hg => hP g (List.mem_append_left _ hg)
+  unfold reproduceOne at h
+  simp only at h
+  split at h
+  · -- super-champion offspring
+    split at h
+    · cases h
+    · rename_i g0 hd
+      have f0 := dup_closed count (hin _ hchamp) hd
+      have hmut : ∀ (g1 : Genome W) (reg1 : Reg W) (ms : Bool) (rs1 : List Nat),
+          (if st.superChamp > 1 then
+              match Rand.float64 (W := W) rs with
+              | .error e => .error e
+              | .ok (f, rs1) =>
+                if lt f (ofDec 8 1) || eq o.mutateAddLinkProb zero then
+                  match mutateLinkWeights g0 o.mopts.weightMutPower one .gaussian rs1 with
+                  | .error e => .error e
+                  | .ok (g1, rs2) => .ok ((g1, st.reg, false), rs2)
+                else
+                  match mutateAddLink g0 st.reg o.mopts rs1 with
+                  | .error e => .error e
+                  | .ok ((g1, reg1, _), rs2) => .ok ((g1, reg1, true), rs2)
+            else .ok ((g0, st.reg, false), rs)) = (.ok ((g1, reg1, ms), rs1) : R (Genome W × Reg W × Bool)) →
+          Fits reg1 (poolOf P0 st) g1 ∧ PoolOk reg1 (poolOf P0 st) := by
+        intro g1 reg1 ms rs1 hm
+        split at hm
+        · split at hm
+          · cases hm
+          · split at hm
+            · split at hm
+              · cases hm
+              · rename_i ga rsa ha
+                simp only [Except.ok.injEq, Prod.mk.injEq] at hm
+                obtain ⟨⟨rfl, rfl, _⟩, _⟩ := hm
+                exact ⟨linkWeights_closed _ _ _ _ rsa f0 ha, hP⟩
+            · split at hm
+              · cases hm
+              · rename_i ga rega ba rsa ha
+                simp only [Except.ok.injEq, Prod.mk.injEq] at hm
+                obtain ⟨⟨rfl, rfl, _⟩, _⟩ := hm
+                exact addLink_closed o.mopts _ rsa ba hP f0 ha
+        · simp only [Except.ok.injEq, Prod.mk.injEq] at hm
+          obtain ⟨⟨rfl, rfl, _⟩, _⟩ := hm
+          exact ⟨f0, hP⟩
+      split at h
+      · cases h
+      · rename_i g1 reg1 ms rs1 hm
+        obtain ⟨f1, p1⟩ := hmut _ _ _ _ hm
+        simp only [Except.ok.injEq, Prod.mk.injEq] at h
+        obtain ⟨rfl, _⟩ := h
+        exact pool_finish (gB := g1) (by simp [newOrganism]) p1 f1
+  · split at h
+    · -- champion clone
+      split at h
+      · cases h
+      · rename_i g0 hd
+        simp only [Except.ok.injEq, Prod.mk.injEq] at h
+        obtain ⟨rfl, _⟩ := h
+        exact pool_finish (gB := g0) (by simp [newOrganism]) hP (dup_closed count (hin _ hchamp) hd)
+    · split at h
+      · cases h
+      · rename_i f rs1 _
+        split at h
+        · -- mutation only
+          split at h
+          · cases h
+          · rename_i k rs2 _
+            split at h
+            · cases h
+            · rename_i mom hmom
+              have hm : mom.genome ∈ P0 := hs mom (List.mem_of_getElem? hmom)
+              split at h
+              · cases h
+              · rename_i g0 hd
+                split at h
+                · cases h
+                · rename_i g1 reg1 ms rs3 hmb
+                  obtain ⟨f1, p1⟩ := mutateBaby_closed o rs2 rs3 ms hP (dup_closed count (hin _ hm) hd) hmb
+                  simp only [Except.ok.injEq, Prod.mk.injEq] at h
+                  obtain ⟨rfl, _⟩ := h
+                  exact pool_finish (gB := g1) (by simp [newOrganism]) p1 f1
+        · -- mating
+          split at h
+          · cases h
+          · rename_i k rs2 _
+            split at h
+            · cases h
+            · rename_i mom hmom
+              have hm : mom.genome ∈ P0 := hs mom (List.mem_of_getElem? hmom)
+              split at h
+              · cases h
+              · rename_i f2 rs3 _
+                -- the mate
+                have hdad : ∀ (dad : Org W) (rs4 : List Nat),
+                    (if gt f2 o.interspeciesMateRate then
+                        match Rand.intn s.orgs.length rs3 with
+                        | .error e => .error e
+                        | .ok (k2, rs4) =>
+                          match s.orgs[k2]? with
+                          | none => .error (.error "panic:index")
+                          | some d => .ok (d, rs4)
+                      else
+                        match pickOtherSpecies s sorted 5 s rs3 with
+                        | .error e => .error e
+                        | .ok (sp, rs4) =>
+                          match sp.orgs.head? with
+                          | none => .error (.error "panic:index")
+                          | some d => .ok (d, rs4)) = (.ok (dad, rs4) : R (Org W)) → dad.genome ∈ P0 := by
+                  intro dad rs4 hd
+                  split at hd
+                  · split at hd
+                    · cases hd
+                    · split at hd
+                      · cases hd
+                      · rename_i d hk2
+                        simp only [Except.ok.injEq, Prod.mk.injEq] at hd
+                        obtain ⟨rfl, _⟩ := hd
+                        exact hs _ (List.mem_of_getElem? hk2)
+                  · split at hd
+                    · cases hd
+                    · rename_i sp rs4' hpick
+                      split at hd
+                      · cases hd
+                      · rename_i d hhead
+                        simp only [Except.ok.injEq, Prod.mk.injEq] at hd
+                        obtain ⟨rfl, _⟩ := hd
+                        have hdm : d ∈ sp.orgs := List.mem_of_mem_head? hhead
+                        rcases pickOtherSpecies_mem s sorted 5 s sp rs3 rs4' hpick with rfl | hsp
+                        · exact hs d hdm
+                        · exact hsorted sp hsp d hdm
+                split at h
+                · cases h
+                · rename_i dad rs4 hdadeq
+                  have hd := hdad dad rs4 hdadeq
+                  have fm := hin _ hm
+                  have fd := hin _ hd
+                  have hl : NodeLineage mom.genome dad.genome := fm.nodes _ (List.mem_append_left _ hd)
+                  have hh : SharedHead mom.genome dad.genome := fm.head _ (List.mem_append_left _ hd)
+                  split at h
+                  · cases h
+                  · rename_i f3 rs5 _
+                    -- the child
+                    have hchild : ∀ (child : Genome W) (rs7 : List Nat),
+                        (if lt f3 o.mateMultipointProb then
+                            mateMultipoint mom.genome dad.genome count mom.originalFitness dad.originalFitness rs5
+                          else
+                            match Rand.float64 (W := W) rs5 with
+                            | .error e => .error e
+                            | .ok (f4, rs6) =>
+                              if lt f4 (div o.mateMultipointAvgProb (add o.mateMultipointAvgProb o.mateSinglepointProb)) then
+                                mateMultipointAvg mom.genome dad.genome count mom.originalFitness dad.originalFitness rs6
+                              else mateSinglePoint mom.genome dad.genome count rs6) = (.ok (child, rs7) : R (Genome W)) →
+                        Fits st.reg (poolOf P0 st) child := by
+                      intro child rs7 hc
+                      split at hc
+                      · exact child_closed fm fd hl hh (mateMultipoint_out _ _ _ _ _ _ _ _ fm.wft fd.wft hc)
+                      · split at hc
+                        · cases hc
+                        · split at hc
+                          · exact child_closed fm fd hl hh (mateMultipointAvg_out _ _ _ _ _ _ _ _ fm.wft fd.wft hc)
+                          · exact child_closed fm fd hl hh (mateSinglePoint_out _ _ _ _ _ _ fm.wft fd.wft hc)
+                    split at h
+                    · cases h
+                    · rename_i child rs7 hceq
+                      have fc := hchild child rs7 hceq
+                      split at h
+                      · cases h
+                      · rename_i f5 rs8 _
+                        split at h
+                        · split at h
+                          · cases h
+                          · rename_i g1 reg1 ms rs9 hmb
+                            obtain ⟨f1, p1⟩ := mutateBaby_closed o rs8 rs9 ms hP fc hmb
+                            simp only [Except.ok.injEq, Prod.mk.injEq] at h
+                            obtain ⟨rfl, _⟩ := h
+                            exact pool_finish (gB := g1) (by simp [newOrganism]) p1 f1
+                        · simp only [Except.ok.injEq, Prod.mk.injEq] at h
+                          obtain ⟨rfl, _⟩ := h
+                          exact pool_finish (gB := child) (by simp [newOrganism]) hP fc
+
 /-! ## known finding K1 (machine-checked witness) and non-vacuity of the hypotheses -/
 
 section Witnesses
